@@ -215,7 +215,12 @@ fn feed_case(rounds: &[Round], now_lag: u8, intervals: &[u16], other_pair: u8, c
     }
     for (i, r) in rounds.iter().enumerate() {
         t += [0u64, 0, 1, 15, 60, 900, 3600, 7][(r.dt as usize) % 8];
-        let p = 1 + r.price as u128;
+        // one round in four repeats the previous price (feeds report unchanged prices all the time)
+        let prev = pending.last().or(subs.last()).map(|x| x.1);
+        let p = match prev {
+            Some(pp) if r.price % 4 == 0 => pp,
+            _ => 1 + r.price as u128,
+        };
         pending.push((t, p));
         let last = i + 1 == rounds.len();
         if r.batch && !last {
@@ -382,7 +387,7 @@ impl Property for C18 {
         tier.pick(600_000, 6_000_000)
     }
     fn rule(&self) -> String {
-        "vAMM flavour (3/5 of the cases): generated reserves and block schedules (gaps 0 s .. 11 days, so that histories and query intervals longer than a week occur; block times with a sub-second fraction) with 0-4 swaps per block through the real entry points; the harness records (block time, block-final spot) for every block with an accepted swap plus the creation entry; the owner's actions of C01 (market closed and re-opened, engine re-pointed, fee update) occur before 7-8% of the swaps; after each block TwapPrice{i} is queried for intervals shorter / equal / longer than the history, aligned with and just inside snapshot lifetimes: the answer must lie between the lowest and highest recorded price in effect in [now-i, now] (whole history if shorter), equal spot when the price did not change in the window, and agree (+-1) with the reference time-weighted mean over the block-final prices. Feed flavour: generated round sequences on the real price feed, submitted singly and in AppendMultiplePrice batches (non-decreasing timestamps incl. repeats, not in the future), in 7 of 8 cases with rounds of a second pair of the same feed submitted before or in between; GetTwapPrice within the bounds of the submissions overlapping the window, GetPrice = last submission, GetPreviousPrice{n} for n < rounds answers with exactly the (rounds-n)-th submission, and any successful answer for larger n would have to be a submitted round. Queries that error or panic give no value and are counted, not judged. Non-trivial: vAMM: a window starting strictly inside a snapshot's lifetime with >= 3 distinct prices in the history and a block with >= 2 swaps; feed: >= 3 submissions and a window overlapping different prices. Distinct by digest of the case.".into()
+        "vAMM flavour (3/5 of the cases): generated reserves and block schedules (gaps 0 s .. 11 days, so that histories and query intervals longer than a week occur; block times with a sub-second fraction) with 0-4 swaps per block through the real entry points; the harness records (block time, block-final spot) for every block with an accepted swap plus the creation entry; the owner's actions of C01 (market closed and re-opened, engine re-pointed, fee update) occur before 7-8% of the swaps; after each block TwapPrice{i} is queried for intervals shorter / equal / longer than the history, aligned with and just inside snapshot lifetimes: the answer must lie between the lowest and highest recorded price in effect in [now-i, now] (whole history if shorter), equal spot when the price did not change in the window, and agree (+-1) with the reference time-weighted mean over the block-final prices. Feed flavour: generated round sequences on the real price feed, submitted singly and in AppendMultiplePrice batches (non-decreasing timestamps incl. repeats, one round in four repeating the previous price, not in the future), in 7 of 8 cases with rounds of a second pair of the same feed submitted before or in between; GetTwapPrice within the bounds of the submissions overlapping the window, GetPrice = last submission, GetPreviousPrice{n} for n < rounds answers with exactly the (rounds-n)-th submission, and any successful answer for larger n would have to be a submitted round. Queries that error or panic give no value and are counted, not judged. Non-trivial: vAMM: a window starting strictly inside a snapshot's lifetime with >= 3 distinct prices in the history and a block with >= 2 swaps; feed: >= 3 submissions and a window overlapping different prices. Distinct by digest of the case.".into()
     }
     fn assumptions(&self) -> Vec<String> {
         vec!["mock dependencies stand in for the chain; block times strictly increase".into()]
